@@ -109,6 +109,7 @@ impl TargetWatcher {
                     &target_id.to_string(),
                     &[
                         ("relevant", (!relevant_files.is_empty()).to_string()),
+                        ("exts", crate::verif::js(&format!("{:?}", extensions))),
                         (
                             "paths",
                             format!(
